@@ -1,7 +1,73 @@
 import A2Verif.Model.Hex
-/-! driver family `c20` (stub until the family is built) -/
-namespace A2Verif.Drv.C20
+import A2Verif.Model.Determinism
+/-!
+driver family `c20`.  Entries of a map are passed in iteration order as `k:HEX;k:HEX;…` (`-` = empty map,
+`HEX` = `-` for an empty value).
 
-def handle (_toks : List String) : String := "bad-request"
+* `c20 to-json <recLen> <entries>`                       → hex of the JSON text (`Model.Determinism.toJson`)
+* `c20 display <entries>`                                → hex of the `Display` text
+* `c20 update-fimg <recLen> <chunkLen> <requireFirst 0|1> <clear 0|1> <init chunks> <entries>`
+                                                         → `refused` | `eof=<n> <chunks ascending>`
+* `c20 chunks-json <entries>`                            → hex of the `chunks` object of `FileImage::to_json`
+* `c20 dasm-map`                                         → 256 mnemonics (`?` = unassigned), comma separated
+* `c20 flags`                                            → the three translator flags
+-/
+namespace A2Verif.Drv.C20
+open A2Verif.Model.Determinism
+
+def parseEntry (s : String) : Option (Nat × List Nat) :=
+  match s.splitOn ":" with
+  | [k, v] => do
+    let k ← k.toNat?
+    let v ← Hex.ofHex v
+    pure (k, v)
+  | _ => none
+
+def parseEntries (s : String) : Option (List (Nat × List Nat)) :=
+  if s == "-" then some [] else (s.splitOn ";").mapM parseEntry
+
+def showEntries (es : List (Nat × List Nat)) : String :=
+  if es.isEmpty then "-" else ";".intercalate (es.map fun e => toString e.1 ++ ":" ++ Hex.toHex e.2)
+
+def parseBool (s : String) : Option Bool :=
+  if s == "0" then some false else if s == "1" then some true else none
+
+def keysDistinct (es : List (Nat × List Nat)) : Bool :=
+  let ks := es.map (·.1)
+  ks.eraseDups.length == ks.length
+
+def bytesToString (bs : List Nat) : String := String.ofList (bs.map Char.ofNat)
+
+def handle (toks : List String) : String :=
+  match toks with
+  | ["to-json", n, es] =>
+    match n.toNat?, parseEntries es with
+    | some n, some es => if keysDistinct es then Hex.toHex (toJson n es) else "bad-request"
+    | _, _ => "bad-request"
+  | ["display", es] =>
+    match parseEntries es with
+    | some es => if keysDistinct es then Hex.toHex (display es) else "bad-request"
+    | none => "bad-request"
+  | ["update-fimg", n, cl, rf, clr, init, es] =>
+    match n.toNat?, cl.toNat?, parseBool rf, parseBool clr, parseEntries init, parseEntries es with
+    | some n, some cl, some rf, some clr, some init, some es =>
+      if cl == 0 || !keysDistinct es || !keysDistinct init then "bad-request" else
+      match updateFimg n cl rf clr init es with
+      | none => "refused"
+      | some f => "eof=" ++ toString f.eof ++ " " ++ showEntries f.chunks
+    | _, _, _, _, _, _ => "bad-request"
+  | ["chunks-json", es] =>
+    match parseEntries es with
+    | some es => if keysDistinct es then Hex.toHex (chunksJson es) else "bad-request"
+    | none => "bad-request"
+  | ["dasm-map"] =>
+    let names := Gen.DasmTable.mnemonicNames
+    ",".intercalate ((List.range 256).map fun code =>
+      match dasmMap (List.range Gen.DasmTable.mnemonicCount) code with
+      | some (m, _) => bytesToString (names.getD m [63])
+      | none => "?")
+  | ["flags"] =>
+    s!"to_json={Gen.C20Flags.recsToJsonSorted} display={Gen.C20Flags.recsDisplaySorted} update_fimg={Gen.C20Flags.recsUpdateFimgSorted}"
+  | _ => "bad-request"
 
 end A2Verif.Drv.C20
